@@ -147,3 +147,26 @@ func LongestRunOfOnesInABlockProto(x []bool, ones bool) (float64, float64) {
 	P := igamc(float64(par.k)/2, V/2)
 	return P, P
 }
+
+// RunsTest_alt1: the standard's steps taken literally, one pass each: pi = #ones/n over all n bits,
+// V_obs = 1 + #{1 <= i < n : e_{i-1} != e_i}. Same sums as RunsTest (which folds the first n-1 bits of the
+// ones count into the pair loop and adds e_{n-1} afterwards); float64 counting of at most 2^53 ones is exact
+// in either order.
+func RunsTest_alt1(x []bool) (float64, float64) {
+	n := len(x)
+	ones := 0.0
+	for i := 0; i < n; i++ {
+		if x[i] {
+			ones++
+		}
+	}
+	pi := ones / float64(n)
+	runs := 1
+	for i := 1; i < n; i++ {
+		if x[i-1] != x[i] {
+			runs++
+		}
+	}
+	V := (float64(runs) - 2*float64(n)*pi*(1-pi)) / (2 * math.Sqrt(float64(n)) * pi * (1 - pi))
+	return normalPQ(V)
+}
